@@ -9,6 +9,9 @@ import shutil
 from . import gen_data
 from . import engine_data
 from . import oracle_c18
+from . import oracle_c01
+from . import prng
+from . import world as W
 
 
 def _ilv_hash(spec):
@@ -54,7 +57,85 @@ def c18_execute(spec, workdir):
     return res
 
 
+# ---------------------------------------------------------------------------------- C01 (engine A)
+PROFILE_C01 = {
+    "n_inputs": (2, 4), "p_clim": 0.35, "p_has_obs": 0.7, "p_has_fcst": 1.0, "p_party_has": 0.95,
+    "miss_rates": [0.05, 0.15, 0.3, 0.4], "p_keep_dim": 0.8, "n_times": (1, 5), "n_leadtimes": (1, 4),
+    "n_locations": (1, 4), "p_subset": 0.03, "p_remap": 0.04, "p_dim_agg": 0.06, "p_obs_range": 0.25,
+    "client_kinds": ["metric_loop", "metric_loop", "metric_loop", "diagram", "diagram", "auto_threshold",
+                     "probabilistic", "from_field", "random"],
+    "p_fault_kind": 0.3, "p_pinned": 1.0, "p_axis_all": 0.3,
+}
+
+
+def c01_gen(seed, run, tier):
+    spec = gen_data.gen_spec("C01", seed, run, tier, PROFILE_C01)
+    trng = prng.stream(seed, "C01", run, "twin")
+    n = len(spec["world"]["inputs"])
+    # single-input worlds with a climatology still have two parties; isolation needs >= 2 scored inputs
+    if n >= 2 and (tier == "thorough" or trng.random() < 0.5):
+        spec["twin"] = trng.randrange(n)
+    else:
+        spec["twin"] = None
+    spec["pinned"] = True
+    return spec
+
+
+def c01_execute(spec, workdir):
+    oracle = oracle_c01.C01Oracle()
+    sim = engine_data.DataSim(spec, workdir + "/a", oracles=[oracle], want_ref=False)
+    res = sim.run()
+    shutil.rmtree(workdir, ignore_errors=True)
+    res["mode"] = "twin" if spec.get("twin") is not None else "single"
+    st = res["stats"]
+    if res["violation"] is None and spec.get("twin") is not None and not st.get("construct_failed"):
+        cfg = spec.get("config", {})
+        protect = []
+        if cfg.get("obs_field"):
+            nm = oracle_c01.role_name(cfg, ["Obs"])
+            if isinstance(nm, tuple):
+                protect += [n for p in W.parties(spec["world"]) for n in p["fields"]
+                            if W.field_kind(n)[0] == nm[0] and abs(W.field_kind(n)[1] - nm[1]) < 1e-9]
+            elif nm:
+                protect.append(nm)
+        victim = spec["twin"]
+        w2 = W.twin(spec["world"], victim, protect=tuple(protect))
+        sim2 = engine_data.DataSim(dict(spec, world=w2), workdir + "/b", oracles=[], want_ref=False)
+        res2 = sim2.run()
+        shutil.rmtree(workdir, ignore_errors=True)
+        res["stats"]["probe:twin_runs"] = 1
+        if not res2["stats"].get("construct_failed"):
+            if len(sim.records) != len(sim2.records):
+                res["violation"] = {"step": 0, "kind": "isolation", "detail": {"sub": "history_length"}}
+            else:
+                for ra, rb in zip(sim.records, sim2.records):
+                    if ra["req"]["input"] == victim:
+                        continue
+                    res["stats"]["probe:twin_compared"] = res["stats"].get("probe:twin_compared", 0) + 1
+                    if ra["status"] != rb["status"] or ra["dig"] != rb["dig"]:
+                        res["violation"] = {"step": ra["step"], "kind": "isolation", "detail": {
+                            "sub": "status" if ra["status"] != rb["status"] else "value", "victim": victim,
+                            "request": engine_data.describe_req(ra["req"]),
+                            "a": [ra["status"]] + ra["dig"], "b": [rb["status"]] + rb["dig"]}}
+                        break
+    if res["violation"] is not None:
+        res["violation"]["signature"] = oracle_c01.signature(spec, res["violation"])
+    res["ilv"] = _ilv_hash(spec)
+    res["nontrivial"] = st.get("probe:sibling_pairs", 0) >= 1 and len(W.parties(spec["world"])) >= 2
+    return res
+
+
 PROPS = {
+    "C01": {"gen": c01_gen, "execute": c01_execute, "engine": "A",
+            "runs": {"quick": 4000, "thorough": 150000},
+            "expected_probes": ["probe:sibling_pairs", "probe:decoded_responses", "probe:twin_compared"],
+            "rule": "one evaluation = one seeded simulated session on a world with >= 2 parties (2-4 inputs, optional "
+                    "climatology, differing coverage and missingness, inputs without obs): interleaved client scripts "
+                    "issuing sibling requests (same fields/axis/slice for every input) with other clients, failing "
+                    "requests, transient read faults and rebuilds in between; half of the quick runs (all thorough runs) "
+                    "are repeated on a twin world with one input's forecast values changed; "
+                    "non-trivial = at least one pair of sibling responses from different inputs was compared; "
+                    "distinct = distinct run digests among non-trivial runs"},
     "C18": {"gen": c18_gen, "execute": c18_execute, "engine": "A",
             "runs": {"quick": 4000, "thorough": 150000},
             "rule": "one evaluation = one seeded simulated session (generated world of 1-4 inputs +/- climatology "
